@@ -19,6 +19,8 @@ PY_BUILTINS = {'len', 'range', 'bool', 'int', 'float', 'abs', 'min', 'max', 'isi
                'iter', 'next', 'callable', 'getattr', 'hasattr', 'reversed', 'map', 'filter'}
 
 ASSUMED = {
+    'mask-index': 'numpy: a[mask] with a boolean array of the same length is a new array of the elements at the true '
+                  'positions, in their order; a mask of another length raises IndexError',
     'np.zeros': 'numpy.zeros(n[, dtype]) returns a fresh 1-D array of length n filled with 0 / False',
     'np.empty': 'numpy.empty(n) returns a fresh 1-D array of length n with arbitrary contents',
     'len': 'len() of a list/tuple/1-D array is its length',
